@@ -1397,6 +1397,18 @@ class Interp:
                 return ("Some", recv[:len(recv) - len(args[0])]) if recv.endswith(args[0]) and args[0] != "" else (("Some", recv) if args[0] == "" else None)
             if m in ("as_str", "as_ref", "to_string", "to_owned", "clone", "into", "borrow"):
                 return recv
+            if m in ("trim_end_matches", "trim_start_matches", "trim_matches") and len(args) == 1 and isinstance(args[0], str) and args[0] != "":
+                out = recv
+                pat = str(args[0])
+                if m in ("trim_end_matches", "trim_matches"):
+                    while out.endswith(pat):
+                        out = out[:len(out) - len(pat)]
+                if m in ("trim_start_matches", "trim_matches"):
+                    while out.startswith(pat):
+                        out = out[len(pat):]
+                return out
+            if m in ("trim", "trim_end", "trim_start") and not args:
+                return recv.strip() if m == "trim" else recv.rstrip() if m == "trim_end" else recv.lstrip()
             if m == "push_str":
                 raise NotEvaluable("string mutation")
         if m == "contains":
